@@ -954,3 +954,30 @@ def every_state_has_a_deadline(ctx: Ctx, rule: str):
                      f"the connection stays registered for ever with its socket and both worker threads; "
                      f"Peer.connection keeps pointing at it, so the peer is never dialled again and "
                      f"answers for the reconnected peer are routed nowhere", rule=rule)
+
+
+def socket_close_confined(ctx: Ctx, rule: str):
+    """Sockets are closed by the thread that select()s on them.  close_connection_socket closes
+    the socket object and resizes the tables the I/O loop builds its select lists from; called
+    from a connection's reader thread it can hit the window between building those lists and
+    entering select(): `ValueError: file descriptor cannot be a negative integer` is caught by
+    nothing and ends the connection thread."""
+    from .c14 import _contexts
+    from ..effects import fault_effects_of
+    model = ctx.model
+    ctx.rule(rule, "close_connection_socket is called only in the node's own thread (or from the "
+                   "user API while no I/O loop runs), never from a connection's reader/writer thread",
+             floor=3)
+    cx = _contexts(model, fault_effects_of(model))
+    for c in call_sites(model, "close_connection_socket"):
+        ctxs = cx.get(id(c.func.node), {"api"})
+        cons = f"{c.func.qualname}:close_connection_socket@thread"
+        ctx.use(c.func)
+        ctx.inst(cons, rule=rule, sample={"where": c.where, "contexts": sorted(ctxs)})
+        foreign = ctxs & {"conn-reader", "conn-writer", "app-worker"}
+        if foreign:
+            ctx.fail(cons, c.where, f"{c.func.qualname} calls close_connection_socket in thread "
+                     f"context(s) {sorted(foreign)}: the socket is closed (fileno -1) while the node "
+                     f"thread may be between building its select lists and select(), which then raises "
+                     f"ValueError outside any handler and ends the connection thread - no peer is "
+                     f"served or dialled any more", rule=rule)
